@@ -138,6 +138,14 @@ func (w *accessWalker) markWrite(e ast.Expr) {
 				w.writes[v] = true
 				return
 			}
+			// x.p.f with p a pointer: the write goes to what p points to, not to the field p itself
+			if t := typeOf(w.pi, v.X); t != nil {
+				if _, isPtr := t.Underlying().(*types.Pointer); isPtr {
+					if _, inner := ast.Unparen(v.X).(*ast.SelectorExpr); inner {
+						return
+					}
+				}
+			}
 			e = v.X
 		default:
 			return
@@ -422,6 +430,8 @@ func extractAccessTable() {
 	var rows []accessRow
 	var calls []callRow
 	var acqs []acqRow
+	var callbacks []callbackInfo
+	var dynFields []string
 	dirs := make([]string, 0, len(accessFields))
 	for d := range accessFields {
 		dirs = append(dirs, d)
@@ -444,6 +454,29 @@ func extractAccessTable() {
 			if !known[f] {
 				fail("C18: struct field %s not found in package %q", f, dir)
 			}
+		}
+		// per-response callbacks of the work manager (root package): the receiver structs' fields are tracked too
+		relOf := func(base string) string {
+			if dir != "" {
+				return dir + "/" + base
+			}
+			return base
+		}
+		var cbs []callbackInfo
+		if dir == "" {
+			cbs = findCallbacks(pi, relOf)
+			for _, cb := range cbs {
+				if cb.Recv == "" {
+					continue
+				}
+				for _, n := range pi.fieldName {
+					if strings.HasPrefix(n, cb.Recv+".") && !tracked[n] {
+						tracked[n] = true
+						dynFields = append(dynFields, n)
+					}
+				}
+			}
+			callbacks = append(callbacks, cbs...)
 		}
 		// fields of one package may be touched from any loaded package that can name them; unexported
 		// fields only from their own package, and all tracked fields are unexported.
@@ -468,6 +501,19 @@ func extractAccessTable() {
 				w.findWrites(fd.Body)
 				w.block(fd.Body.List, nil)
 			}
+		}
+	}
+	for _, cb := range callbacks {
+		if cb.lit != nil {
+			cr := closureRows(loadPkg(""), cb)
+			seen := map[string]bool{}
+			for _, r := range cr {
+				if !seen[r.Field] {
+					seen[r.Field] = true
+					dynFields = append(dynFields, r.Field)
+				}
+			}
+			rows = append(rows, cr...)
 		}
 	}
 	for _, r := range rows {
@@ -536,7 +582,19 @@ func extractAccessTable() {
 			fields = append(fields, in.ref(f))
 		}
 	}
+	sort.Strings(dynFields)
+	for _, f := range dynFields {
+		if seenField[f] {
+			fields = append(fields, in.ref(f))
+		}
+	}
+	var cbs []string
+	for _, cb := range callbacks {
+		cbs = append(cbs, fmt.Sprintf("  ⟨%s, %s⟩", in.ref(cb.Fn), lbool(cb.Multi)))
+		fmt.Printf("extract: C18 work-manager callback %s (multi=%v) registered at %s:%d\n", cb.Fn, cb.Multi, cb.File, cb.Line)
+	}
 	in.emit(l)
+	l.sb.WriteString("/-- a per-response callback handed to the work manager (query.Request.HandleResp); `multi`: registered in a loop, so the callbacks of one query can run on several worker goroutines at once -/\nstructure Callback where\n  fn : Nat\n  multi : Bool\n  deriving Repr, DecidableEq\n\n")
 	l.sb.WriteString("structure Held where\n  lock : Nat\n  excl : Bool\n  deriving Repr, DecidableEq\n\n")
 	l.sb.WriteString("structure Access where\n  field : Nat\n  write : Bool\n  fn : Nat\n  file : String\n  line : Nat\n  held : List Held\n  inGo : Bool\n  deriving Repr\n\n")
 	l.sb.WriteString("structure Call where\n  callee : Nat\n  caller : Nat\n  line : Nat\n  held : List Held\n  deriving Repr\n\n")
@@ -544,8 +602,9 @@ func extractAccessTable() {
 	l.def("calls", "List Call", "[\n"+strings.Join(cs, ",\n")+"]", "calls to the functions that touch tracked fields (and to their direct callers), with the locks held at the call")
 	l.sb.WriteString("structure Acq where\n  fn : Nat\n  lock : Nat\n  excl : Bool\n  deriving Repr\n\n")
 	l.def("acquires", "List Acq", "[\n"+strings.Join(as, ",\n")+"]", "mutexes the called functions lock themselves (Lock / RLock in their own body)")
+	l.def("callbacks", "List Callback", "[\n"+strings.Join(cbs, ",\n")+"]", "per-response callbacks registered with the work manager; their receiver fields / captured variables are tracked fields")
 	l.def("fields", "List Nat", "["+strings.Join(fields, ", ")+"]", "the tracked fields")
-	facts["accesstable"] = map[string]any{"rows": rows, "calls": calls}
+	facts["accesstable"] = map[string]any{"rows": rows, "calls": calls, "callbacks": callbacks}
 	fmt.Printf("extract: C18 %d accesses to %d tracked fields, %d call rows\n", len(rows), len(fields), len(calls))
 	// rows with no lock at all in functions that also have locked rows are the usual suspects: print them
 	for _, r := range rows {
